@@ -100,6 +100,10 @@ func main() {
 		}
 	case "C25":
 		e.Rep.Rule = idxRule
+		for _, w := range idxWitnesses() {
+			e.Rep.Hit("witness")
+			runCase(w)
+		}
 		n := e.N(45, 350)
 		for i := 0; i < n; i++ {
 			runCase(genIdxProgram(e.Rng.Fork()))
